@@ -316,6 +316,12 @@ pub fn c08_case(cfg: &Cfg, rep: &mut Report, case_seed: u64) {
         if rep.violations.len() > before {
             return;
         }
+        // ... also when ONE parser object is instantiated, re-sorted and instantiated again (the parse result is
+        // a long-lived object with public sort methods; every instantiation has to pair formulas and statements anew)
+        if !crate::meta::reused_parser_check(rep, &case, &mut rng, case_seed) {
+            return;
+        }
+        rep.count("positives_followed_through_a_resorted_parser", 1);
     }
     // negatives derived from this positive
     c08_negatives(rep, &g, &r.text, &mut rng, case_seed);
